@@ -572,6 +572,12 @@ Definition cache_add (name : str) (tags : tagset) (id : N) (c : cache_t) : cache
                     && existsb (fun kv => str_eqb (fst kv) (snd (fst (fst ks))) && str_eqb (snd kv) (snd (fst ks))) tags
                  then (fst ks, sadd id (snd ks)) else ks) c.
 
+(** TagValueSeriesIDCache.delete for every tag of a dropped series (only existing sets) *)
+Definition cache_del (name : str) (tags : tagset) (id : N) (c : cache_t) : cache_t :=
+  map (fun ks => if str_eqb (fst (fst (fst ks))) name
+                    && existsb (fun kv => str_eqb (fst kv) (snd (fst (fst ks))) && str_eqb (snd kv) (snd (fst ks))) tags
+                 then (fst ks, srem id (snd ks)) else ks) c.
+
 Definition sf_add (id : N) (x : str * tagset) (sf : sfile) : sfile :=
   match sf_get id sf with Some _ => sf | None => sf ++ [(id, x)] end.
 
@@ -599,7 +605,16 @@ Definition drop_meas_all (m : str) (st : index) : index :=
 Definition step (st : index) (o : op) : index :=
   match o with
   | OCreate l => do_create l st
-  | ODropSeries id p => set_parts st (upd_nth p (p_drop_series (i_sf st) (i_maxlog st) id) (i_parts st))
+  | ODropSeries id p =>
+      (* Index.DropSeries: the partition's DropSeries, then (also when cascade = false) the id is
+         removed from the cached tag-value series sets of the series' tags *)
+      {| i_parts := upd_nth p (p_drop_series (i_sf st) (i_maxlog st) id) (i_parts st);
+         i_sf := i_sf st; i_sdel := i_sdel st;
+         i_cache := match i_cache st, sf_get id (i_sf st) with
+                    | Some c, Some (name, tags) => Some (cache_del name tags id c)
+                    | c, _ => c
+                    end;
+         i_maxlog := i_maxlog st |}
   | ODropIfNone m =>
       if existsb (fun p => has_series (p_files p) (p_set p) m) (i_parts st) then st else drop_meas_all m st
   | ODropMeas m => drop_meas_all m st
